@@ -188,6 +188,8 @@ impl IntrinsicInstrKind {
 #[derive(Debug)]
 pub struct IntrinsicInstrAbiParts {
     pub num_instr_args: usize,
+    /// Indices of padding in the encoded argument list.  (these have no corresponding argument)
+    pub padding_indices: Vec<usize>,
     /// Indices of args that should use the same logic as arguments in `ins_` instruction-call syntax.
     pub plain_args: Vec<usize>,
     /// Indices of args that are known registers.  These show up in intrinsics.
@@ -329,10 +331,15 @@ impl IntrinsicInstrAbiParts {
         let mut encodings = abi.arg_encodings().enumerate().collect::<Vec<_>>();
 
         let helper = IntrinsicAbiHelper { intrinsic, abi_loc };
+        let padding_indices = {
+            encodings.iter().filter(|(_, enc)| matches!(enc, ArgEncoding::Padding { .. }))
+                .map(|&(index, _)| index).collect::<Vec<_>>()
+        };
         helper.find_and_remove_padding(&mut encodings);
 
         let mut out = IntrinsicInstrAbiParts {
             num_instr_args: encodings.len(),
+            padding_indices,
             plain_args: vec![], outputs: vec![], jump: None, sub_id: None,
         };
 
